@@ -74,7 +74,7 @@ def plan(tier, seed):
     for r in range(40 if quick else 600):
         P.add("power", n=int(rng.integers(1, 9)), cplx=bool(rng.random() < 0.5),
               via=pick(rng, ["func", "linop", "maxeig"]), mi=int(pick(rng, [1, 5, 30])),
-              spec=pick(rng, ["psd", "psd", "rankdef", "repeated"]),
+              spec=pick(rng, ["psd", "psd", "rankdef", "repeated", "zero"]),
               aseed=int(rng.integers(1 << 30)))
     # transient failures: the user's operator raises once during an update; the caller
     # catches the error and resumes the loop - the failed update must not count, so with
@@ -581,6 +581,10 @@ def run_power(case):
         Q, _ = np.linalg.qr(crandn(rng, [n, n], dt))
         w = np.array(([3.0, 3.0, 1.0, 0.5, 0.5] * 2)[:n])
         H = (Q * w) @ Q.conj().T
+    if case["spec"] == "zero":
+        # the zero operator (all-zero data, an empty sampling mask): largest eigenvalue 0;
+        # the estimates are 0 - not NaN - and never exceed it
+        H = np.zeros((n, n), dt)
     H = (H + H.conj().T) / 2
     # the power iteration is scale invariant: operators of norm ~1e-8 and ~1e+8 as well
     hs = [1.0, 1.0, 1e-8, 1e8][case["aseed"] % 4]
@@ -618,6 +622,10 @@ def run_power(case):
                         mech="max_iter:PowerMethod")
     prev = None
     for k, (e, nx) in enumerate(ests):
+        if not (np.isfinite(e) and np.isfinite(nx)):
+            return violated(sig, "eigenvalue estimate / vector became non-finite at update %d "
+                            "(estimate %r, ||x|| %r; lambda_max = %.6g)" % (k + 1, e, nx, lmax),
+                            wit, mech="power-nonfinite")
         if e > 0 and abs(nx - 1) > 1e-10:
             return violated(sig, "||x|| = %.12g after update %d" % (nx, k + 1), wit,
                             mech="power-norm")
